@@ -5844,7 +5844,19 @@ class Symbol:
 
             return BOOL_TO_STR[val]
 
-        if self.orig_type:  # STRING/INT/HEX
+        if self.orig_type:  # STRING/INT/HEX/FLOAT
+            # An active 'set default' takes precedence over the defaults (see str_value)
+            for value, cond, _ in self.weak_rev_values:
+                if expr_value(cond) and expr_value(self.direct_dep):
+                    if self.orig_type == STRING:
+                        return value.str_value
+                    if self.orig_type == FLOAT:
+                        if is_float(value.name):
+                            return _normalize_float(value.name)
+                    elif _is_base_n(value.name, _TYPE_TO_BASE[self.orig_type]):
+                        return value.name
+                    break
+
             for default, cond in self.defaults:
                 if expr_value(cond):
                     return default.str_value
